@@ -44,7 +44,10 @@ CONSTANTS Codes,        \* ErrorCode objects (two objects may share a name: CALL
           \* specification-level mutants (TRUE = the code as it is)
           DisabledLeavesUnused,   \* an error of a disabled code does not mark the ignore used
           SubCodesMatch,          \* ignore[c] also matches sub-codes of c
-          BlockersBypass          \* blockers are never ignored
+          BlockersBypass,         \* blockers are never ignored
+          \* TRUE: OutputExactness is claimed only for report sequences in which equal texts on one line carry one code
+          \* (FALSE documents the defect of the rule: see Finding_Errors_CrossCodeDup.cfg)
+          AssumeNoCrossCodeDups
 
 None == "none"
 Range(s) == {s[i] : i \in 1..Len(s)}
@@ -281,6 +284,27 @@ ExactDisable(cfgB, cfgV, c, ev) ==
        /\ c \notin {"unused-ignore", "ignore-without-code"} =>
              \A x \in Generated(B, g) : x.kind = "unused" => \E y \in Generated(V, g) : y.line = x.line /\ y.kind = "unused"
 
+\* Output-level exactness (DESIGN Appendix D): the error-severity diagnostics *printed* under cfgV are those printed
+\* under cfgB minus removals, plus only the generated unused-ignore / ignore-without-code errors (and once-only
+\* messages, which are program-level).  NewErrors is the set of offenders.
+NewErrors(cfgB, cfgV, ev) ==
+  LET foB == FileOut(Run(cfgB, ev))
+      foV == FileOut(Run(cfgV, ev))
+      onceMsgs == {ev[i].r.msg : i \in {j \in 1..Len(ev) : ev[j].t = "report" /\ ev[j].r.once}}
+  IN UNION {{[f |-> g, o |-> foV[g][k]] : k \in {k \in 1..Len(foV[g]) :
+                 LET o == foV[g][k] IN
+                 /\ o.sev = "error"
+                 /\ o.code \notin {"unused-ignore", "ignore-without-code"}
+                 /\ o.msg \notin onceMsgs
+                 /\ \A k2 \in 1..Len(foB[g]) : foB[g][k2] # o}} : g \in DOMAIN cfgB}
+\* remove_duplicates hides a second report with the same text on the same line even when its code differs; when the
+\* first is suppressed the second becomes visible.  Sequences without such pairs:
+NoCrossCodeDups(ev) ==
+  \A i, j \in 1..Len(ev) :
+     (/\ ev[i].t = "report" /\ ev[j].t = "report" /\ ev[i].f = ev[j].f
+      /\ ev[i].r.line = ev[j].r.line /\ ev[i].r.sev = ev[j].r.sev /\ ev[i].r.msg = ev[j].r.msg)
+     => ev[i].r.code = ev[j].r.code
+
 \* UnusedIff / NoCodeIff: what the ignore at (f, l) suppressed, stated without the machine
 SuppressedBy(cfg, ev, f, l) ==
   {i \in ReportIdx(ev, f) :
@@ -376,6 +400,12 @@ Exactness == Done => \A i \in 1..Len(Slots) :
 WithoutDisable(c, code) == [f \in DOMAIN c |-> [c[f] EXCEPT !.disabled = @ \ {code}]]
 DisableExact == Done => \A c \in Codes :
                  (\E f \in Files : c \in cfg[f].disabled) => ExactDisable(WithoutDisable(cfg, c), cfg, c, ev)
+OutputExactness == (Done /\ (AssumeNoCrossCodeDups => NoCrossCodeDups(ev))) =>
+                 /\ \A i \in 1..Len(Slots) :
+                      LET f == Slots[i][1] l == Slots[i][2] IN
+                      (cfg[f].ign[l].on /\ cfg[f].hasMap) => NewErrors(WithoutIgnore(cfg, f, l), cfg, ev) = {}
+                 /\ \A c \in Codes :
+                      (\E f \in Files : c \in cfg[f].disabled) => NewErrors(WithoutDisable(cfg, c), cfg, ev) = {}
 UnusedExact == Done => (UnusedIff(cfg, ev) /\ NoCodeIff(cfg, ev))
 ExitCode == Done => ExitTruth(cfg, ev)
 
